@@ -310,6 +310,13 @@ pub fn check_stream_case(case: &StreamCase, refs: &mut Refs, mon: &mut Mon) {
 
     let first = fired[0].clone();
     mon.count_dyn(format!("read_fault_fired.{}{}", first.hard.map(|k| k.name()).unwrap_or("EarlyEof"), if case.plan.faults.iter().any(|f| f.id == first.id && f.sticky) { ".sticky" } else { ".oneshot" }));
+    if first.hard.is_some() {
+        mon.count(match first.payload {
+            Payload::Custom => "read_fault_payload.custom",
+            Payload::Bare => "read_fault_payload.bare",
+            Payload::Os(_) => "read_fault_payload.raw_os_error",
+        });
+    }
     let lex = text::lex_states(&case.input);
     let lex_at = lex.get(first.at).copied().unwrap_or(Lex::End);
     let j = run.fired_item.unwrap_or(0);
